@@ -807,6 +807,10 @@ pub fn build(plan: &Plan) -> Model {
                                 }
                                 st.long.clear();
                                 if let Act::Program(pg) = &c.act {
+                                    if pg.pull_skip > 0 && pg.pull_params != Some(0) {
+                                        let a = (pg.pull_skip as usize).min(params.len());
+                                        params.drain(0..a);
+                                    }
                                     if let Some(k) = pg.pull_params {
                                         params.truncate(k as usize);
                                     }
